@@ -5,7 +5,7 @@ from ..driver import Prop
 class C18(Prop):
     id = 'C18'
     design_ref = 'DESIGN.md section 4 / C18'
-    budgets = {'quick': 100000, 'thorough': 2000000}
+    budgets = {'quick': 100000, 'thorough': 1000000}
 
     def gen(self, rng, index, tier):
         return schedsim.gen_sched(rng)
